@@ -242,6 +242,9 @@ fn run_case(sh: &mut Shards, st: &mut Stats, scratch: &cli::Scratch, r: &mut Rng
     });
     if st.samples.len() < 4 && !qs.is_empty() {
         let mut small = rep.clone();
+        if let Some(o) = small.as_object_mut() {
+            o.remove("case");
+        }
         if let Some(a) = small.get_mut("queries").and_then(|q| q.as_array_mut()) {
             a.truncate(6);
         }
